@@ -42,7 +42,7 @@ Expected(s, e) ==
   ELSE IF e.op = "colnames" /\ ObsShapeOK(Step(s, e, FALSE), e.obs) THEN Rebuf(Step(s, e, FALSE), e.x, e.obs, 1)
   ELSE Step(s, e, Shares(s, e))
 
-AddsFrame(e) == e.op \in Transforming \cup {"copy"}
+AddsFrame(e) == e.op \in Transforming \cup {"copy", "ctor"}
 
 (* aliasing: two columns share memory in the observation iff they hold one buffer in the model *)
 PartitionOK(exp, obs) ==
@@ -65,9 +65,9 @@ Clause(s, e) ==
   ELSE IF Len(obs.frames) # Len(exp.frames) THEN "SM:no-new-frame:" \o op
   ELSE IF \E h \in DOMAIN obs.frames : ~obs.frames[h].shape_ok THEN "C01:column-not-a-1-d-column-vector-of-nrow"
   ELSE IF \E h \in DOMAIN obs.frames : ~WellFormed(ObsFrame(obs.frames[h])) THEN "C01:not-rectangular-or-duplicate-names"
-  ELSE IF (op \in Transforming \cup {"copy"}) /\ \E h \in 1..n : ObsFrame(obs.frames[h]) # View(s, h)
+  ELSE IF (op \in Transforming \cup Observers \cup {"copy", "ctor"}) /\ \E h \in 1..n : ObsFrame(obs.frames[h]) # View(s, h)
        THEN "C06:operand-changed-by:" \o op
-  ELSE IF (op \in Transforming \cup {"copy"}) /\ \E h \in 1..n : obs.frames[h].grp # s.frames[h].grp
+  ELSE IF (op \in Transforming \cup Observers \cup {"copy", "ctor"}) /\ \E h \in 1..n : obs.frames[h].grp # s.frames[h].grp
        THEN "C06:operand-grouping-changed-by:" \o op
   ELSE IF op = "full" /\ ~J!FullJoinOK(View(s, e.x), View(s, e.o), <<"k">>, ObsFrame(obs.frames[n + 1]))
        THEN "SM:full_join-loses-rows-or-pairs-unequal-keys"
